@@ -138,6 +138,33 @@ def r11_6(ctx, rule='R11.6'):
     cfg = fi.cfg
     hs = [h for st in ast.walk(fi.node) if isinstance(st, ast.Try) for h in st.handlers
           if q.handler_catches(h, ('RestartFreqExceeded',))]
+    if not hs:
+        # the same thing said with a context manager: `with CM(pool):` around the maintenance calls, CM.__exit__
+        # closes the pool when the exception is a RestartFreqExceeded and never returns a true value
+        m = ctx.model
+        calls = q.nodes_calling(fi, 'pool._maintain_pool') or q.nodes_calling(fi, 'self.pool._maintain_pool')
+        q.need(calls, 'Supervisor.body does not call _maintain_pool')
+        for w_ in [st for st in ast.walk(fi.node) if isinstance(st, ast.With)]:
+            for it in w_.items:
+                ce = it.context_expr
+                if not (isinstance(ce, ast.Call) and isinstance(ce.func, ast.Name)):
+                    continue
+                ex = m.funcs.get('pool:%s.__exit__' % ce.func.id)
+                if ex is None:
+                    continue
+                src = ast.unparse(ex.node)
+                rets = [r_ for r_ in ast.walk(ex.node) if isinstance(r_, ast.Return)]
+                swallow = any(not (r_.value is None or (isinstance(r_.value, ast.Constant) and not r_.value.value))
+                              for r_ in rets)
+                closes = 'RestartFreqExceeded' in src and '.close()' in src
+                inside = all(q.inside(fi, c_, w_.body) for c_ in calls)
+                ctx.ob(rule, 'Supervisor.body:refused-restart-re-raised', not swallow, fi, None,
+                       '%s.__exit__ returns nothing true: the exception goes on' % ce.func.id)
+                ctx.ob(rule, 'Supervisor.body:refused-restart-closes-the-pool', closes, fi, None,
+                       '%s.__exit__ closes the pool on RestartFreqExceeded' % ce.func.id)
+                ctx.ob(rule, 'Supervisor.body:maintenance-inside-the-try', inside, fi, None,
+                       'every _maintain_pool() call is inside the with block')
+                return
     q.need(hs, 'Supervisor.body has no handler for RestartFreqExceeded')
     h = hs[0]
     entry = [n for n in cfg.nodes if n.kind == 'except' and n.stmt is not None and
